@@ -714,6 +714,18 @@ class ConsumerMdib(mdibbase.MdibBase):
                     modification_type = report_part.ModificationType
                     if modification_type == dmt.CREATE:
                         for descriptor_container in report_part.Descriptor:
+                            old_container = self.descriptions.handle.get_one(
+                                descriptor_container.Handle,
+                                allow_none=True,
+                            )
+                            if old_container is not None:
+                                # a duplicated report, or the deletion of the previous descriptor was missed:
+                                # replace it, there must never be two descriptors with the same handle.
+                                self._logger.warning(  # noqa: PLE1205
+                                    'process_incoming_descriptors: created descriptor "{}" already exists, replacing it',
+                                    descriptor_container.Handle,
+                                )
+                                self.descriptions.remove_object(old_container)
                             self.descriptions.add_object(descriptor_container)
                             self._logger.debug(  # noqa: PLE1205
                                 'process_incoming_descriptors: created description "{}" (parent="{}")',
@@ -723,7 +735,7 @@ class ConsumerMdib(mdibbase.MdibBase):
                             new_descriptor_by_handle[descriptor_container.Handle] = descriptor_container
                         for state_container in report_part.State:
                             self._set_descriptor_container_reference(state_container)
-                            multi_key(state_container).add_object_no_lock(state_container)
+                            self._update_state_from_description_modification(state_container, add_if_missing=True)
                     elif modification_type == dmt.UPDATE:
                         updated_descriptor_containers = report_part.Descriptor
                         updated_state_containers = report_part.State
@@ -765,27 +777,7 @@ class ConsumerMdib(mdibbase.MdibBase):
                                     state = self.context_states.handle.get_one(handle)
                                     self.context_states.remove_object_no_lock(state)
                         for state_container in updated_state_containers:
-                            my_multi_key = multi_key(state_container)
-
-                            if state_container.is_context_state:
-                                old_state_container = my_multi_key.handle.get_one(
-                                    state_container.Handle,
-                                    allow_none=True,
-                                )
-                            else:
-                                old_state_container = my_multi_key.descriptor_handle.get_one(
-                                    state_container.DescriptorHandle,
-                                    allow_none=True,
-                                )
-                                if old_state_container is None:
-                                    self._logger.error(  # noqa: PLE1205
-                                        'process_incoming_descriptors: got update of state "{}" , '
-                                        'but it did not exist in mdib!',
-                                        state_container.DescriptorHandle,
-                                    )
-                            if old_state_container is not None:
-                                old_state_container.update_from_other_container(state_container)
-                                my_multi_key.update_object(old_state_container)
+                            self._update_state_from_description_modification(state_container, add_if_missing=False)
 
                     elif modification_type == dmt.DELETE:
                         deleted_descriptor_containers = report_part.Descriptor
@@ -814,6 +806,39 @@ class ConsumerMdib(mdibbase.MdibBase):
                 self.updated_descriptors_by_handle = updated_descriptor_by_handle
             if deleted_descriptor_by_handle:
                 self.deleted_descriptors_by_handle = deleted_descriptor_by_handle
+
+    def _update_state_from_description_modification(
+        self,
+        state_container: AbstractStateContainer,
+        add_if_missing: bool,
+    ):
+        """Update the state in mdib that corresponds to a state of a description modification report part.
+
+        :param state_container: the state from the report part
+        :param add_if_missing: if True, the state is added to mdib if it is not yet there (CREATE parts).
+        """
+        my_multi_key = self.context_states if state_container.is_context_state else self.states
+        if state_container.is_context_state:
+            old_state_container = my_multi_key.handle.get_one(state_container.Handle, allow_none=True)
+        else:
+            old_state_container = my_multi_key.descriptor_handle.get_one(
+                state_container.DescriptorHandle,
+                allow_none=True,
+            )
+        if old_state_container is None:
+            if add_if_missing:
+                my_multi_key.add_object_no_lock(state_container)
+            elif not state_container.is_context_state:
+                self._logger.error(  # noqa: PLE1205
+                    'process_incoming_descriptors: got update of state "{}" , but it did not exist in mdib!',
+                    state_container.DescriptorHandle,
+                )
+        else:
+            old_state_container.update_from_other_container(state_container)
+            if state_container.descriptor_container is not None:
+                # the descriptor object might have been replaced (CREATE part)
+                old_state_container.descriptor_container = state_container.descriptor_container
+            my_multi_key.update_object(old_state_container)
 
     def _has_new_state_usable_state_version(
         self,
